@@ -8,6 +8,7 @@ from fdlstatic.ctx import Ctx, kwarg
 from fdlstatic.keykind import KeyKind
 from fdlstatic.model import AnalysisError, unparse, walk_function, walk_stmts
 from fdlstatic.report import RuleSet
+from fdlstatic.rules import sigrules
 
 T = 'fiddle._src.tagging'
 SEL = 'fiddle._src.selectors'
@@ -187,13 +188,16 @@ def run(ctx: Ctx, rs: RuleSet, tier: str):
   rule = 'DOM.tag-edit-validation'
   rs.declare(rule, 'tag editing validates the argument and converts an index '
              'to its storage key before touching the tag set', 4)
-  for name in ('add_tag', 'remove_tag', 'clear_tags', 'get_tags'):
+  for name in ('add_tag', 'remove_tag', 'clear_tags', 'get_tags', 'set_tags'):
     f = ctx.func(f'{T}.{name}')
     g = ctx.cfg(f)
     arg = f.params[1]
+    # validated directly, or by an editor of this module that is called first
+    # with the same (buildable, argument)
     val = {n for n in g.nodes() if any(
-        isinstance(e, ast.Call) and p.resolve(e.func, f) ==
-        f'{T}._validate_argument_name' and len(e.args) == 2 and
+        isinstance(e, ast.Call) and p.resolve(e.func, f) in (
+            f'{T}._validate_argument_name', f'{T}.clear_tags', f'{T}.add_tag',
+            f'{T}.remove_tag') and len(e.args) >= 2 and
         unparse(e.args[1]) == arg for e in cfg_lib.walk_node(g, n))}
     conv = {n for n in g.nodes() if isinstance(g.stmt[n], ast.Assign) and
             unparse(g.stmt[n].targets[0]) == arg and
@@ -210,6 +214,34 @@ def run(ctx: Ctx, rs: RuleSet, tier: str):
              'validate -> (int -> storage key) -> tag set access'
              if ok else f'validated={bool(val)} converted={bool(conv)} '
              f'uses={len(uses)}', ctx.loc(f, f.node))
+  # tags declared with Annotated[...] are stored under the storage key too
+  bi = ctx.func('fiddle._src.config.Buildable.__init__')
+  ok = False
+  why = 'the loop over find_tags_from_annotations(...) was not found'
+  for L in walk_function(bi.node):
+    if not (isinstance(L, ast.For) and 'find_tags_from_annotations' in unparse(
+        L.iter) and isinstance(L.target, ast.Tuple)):
+      continue
+    nv = unparse(L.target.elts[0])
+    conv = False
+    for st in ast.walk(L):
+      if isinstance(st, ast.If) and sigrules.kinds_on_branch(
+          st.test, True) == {'POSITIONAL_ONLY'}:
+        conv = any(isinstance(a, ast.Assign) and unparse(
+            a.targets[0]) == nv and ('.index(' in unparse(a.value))
+                   for a in st.body)
+    ok = conv
+    why = ('a tag annotated on a positional-only parameter is stored under '
+           'its index' if conv else
+           'tags from Annotated[...] are stored under the parameter name even '
+           'for positional-only parameters, whose values are stored by index: '
+           'set_tagged then tries setattr on a positional-only name '
+           '(AttributeError) and a tag selection yields NO_VALUE for a set '
+           'argument')
+  rs.check(ok, 'KD.annotation-tag-keys', f'{bi.qualname}:annotation-tags', why,
+           ctx.loc(bi, bi.node))
+  rs.declare('KD.annotation-tag-keys', 'annotation-declared tags use the '
+             'canonical storage key', 1)
   va = ctx.func(f'{T}._validate_argument_name')
   calls = {p.resolve(c.func, va) or unparse(c.func) for c in ctx.calls(va)}
   rs.check('fiddle._src.signatures.SignatureInfo.validate_param_name' in
